@@ -107,6 +107,8 @@ def harness_line(c):
         t.append(f'wildcard={int(c["wild"])}')
     if c.get('gate'):
         t.append(f'gate={c["gate"]}')
+    if c.get('stuck'):
+        t.append(f'stuck={c["stuck"]}')
     if c['presented']:
         pname, with_chain = presented_of(c)
         p = CERTS[pname]
@@ -242,6 +244,13 @@ def grid(full):
              and (c['authz'] or c['side'] == 'client')
              and c['label'] in ('valid', 'valid2', 'role-less', 'other-role', 'two-roles', 'wrong-authority', 'expired', 'wrong-name', 'not-the-configured-cert', 'via-intermediate')]
     cells += gated
+    # two overlapping connections: one that is accepted first and never finishes its handshake (silent / 9 bytes of a
+    # ClientHello / Modbus in clear) stays open while a peer arrives behind it - that peer's admission must be the
+    # one it gets alone (within the harness's bound)
+    behind = [dict(c, stuck=k) for k in ('silent', 'partial', 'plain') for c in cells
+              if c['side'] == 'server' and c['peer'] in ('openssl', 'rodbus') and not c.get('gate') and c['min'] == '12' and c['offer'] == 'both'
+              and c['label'] in ('valid', 'valid2', 'role-less', 'wrong-authority') and (c['authz'] or c['label'] in ('valid2', 'role-less'))]
+    cells += behind
     if full:
         return cells
     # core grid: every version cell with a valid certificate against the independent peer, plus one
@@ -331,13 +340,22 @@ def key_of(c, impl, want):
     got = impl.split(':')[0].lower()
     exp = want.split(':')[0].lower()
     what = f'{got}-expected-{exp}' if got != exp else 'details-differ'
-    return f'tls.{c["side"]}{".deprecated-new" if c.get("ctor") else ""}{".level-change-during-handshake" if c.get("gate") else ""}.min{c["min"]}.{c["mode"]}.{"authz" if c["authz"] else "noauthz"}.{c["label"]}.peer-{c["peer"]}-offers-{c["offer"]}.{what}'
+    return f'tls.{c["side"]}{".deprecated-new" if c.get("ctor") else ""}{".level-change-during-handshake" if c.get("gate") else ""}{".behind-a-stuck-connection" if c.get("stuck") else ""}.min{c["min"]}.{c["mode"]}.{"authz" if c["authz"] else "noauthz"}.{c["label"]}.peer-{c["peer"]}-offers-{c["offer"]}.{what}'
 
 
 def run(ctx):
     _init_certs()
     _init_cas()
     ctx.translate(['TlsVersions.v', 'TlsModes.v', 'SessionErrors.v'])   # SessionErrors.v: the client front-end theorems use p4's task model
+    # the accept loop must not wait on any single connection (the handshake belongs to the spawned session): the
+    # generated count of await points of ServerTask::handle outside the spawned session block (Gen/ServerForward.v) is 0
+    n_await = None
+    if ctx.translate(['ServerForward.v']):
+        import re
+        m = re.search(r'Definition handle_awaits : nat := (\d+)\.', open(os.path.join(vlib.COQ, 'theories', 'Gen', 'ServerForward.v')).read())
+        n_await = int(m.group(1)) if m else None
+    if not ctx.oblige('accept-loop-does-not-await-a-connection', n_await == 0, f'Gen/ServerForward.v handle_awaits = {n_await}'):
+        ctx.proof_broken.append(f'ServerTask::handle awaits {n_await} time(s) outside the spawned session: a connection can hold up the accept loop')
     spec_ok = ctx.build_models(REQ_SPEC)
     models_ok = spec_ok and ctx.build_models(REQ)
     ctx.prove()
@@ -407,7 +425,7 @@ def run(ctx):
             continue
         seen.add(cls)
         ctx.violation(key_of(c, i, spec), f'rodbus TLS {SIDE_NAMES.get(c["side"], c["side"])}{" built with the deprecated TlsClientConfig::new" if c.get("ctor") else ""} (min TLS 1.{c["min"][1]}, {"authority" if c["mode"] == "ca" else "self-signed"} mode, '
-                      f'{"with" if c["authz"] else "without"} authorization) against a {c["peer"]} peer offering {c["offer"]} presenting a {c["label"]} certificate{", with a decode-level change on the endpoint under test while the handshake is held back by a relay" if c.get("gate") else ""}: {d} (harness: {i}, Spec: {spec})',
+                      f'{"with" if c["authz"] else "without"} authorization) against a {c["peer"]} peer offering {c["offer"]} presenting a {c["label"]} certificate{", with a decode-level change on the endpoint under test while the handshake is held back by a relay" if c.get("gate") else ""}{", arriving while an earlier connection that never finishes its handshake (" + c["stuck"] + ") is still open" if c.get("stuck") else ""}: {d} (harness: {i}, Spec: {spec})',
                       {'cases': [c], 'impl': i, 'spec': spec, 'harness_line': harness_line(c), 'ground_truth': truth(c)})
     ctx.oblige('correspondence:tls-handshake-grid', n_spec == 0 and n_model == 0, f'{n_model} model / {n_spec} spec mismatches in {len(cells)} cells')
     if not ctx.replay and models_ok:
